@@ -166,6 +166,32 @@ type ShardResult struct {
 	UserCPU   time.Duration
 	Stats     map[string]int64
 	Wall      time.Duration
+	MaxRSSKB  int64 // peak resident set of the child (getrusage)
+	MemCapped bool  // the parent killed the child because its resident set passed the cap
+}
+
+// childRSSCapKB is the resident-set size at which the parent kills a child (and reports the end as a
+// death): no input of at most 10 MiB needs anything near it, and an unbounded leak would otherwise take the
+// whole sandbox down with it (there is no memory limit here).  VERIF_CHILD_RSS_CAP_MB overrides it.
+func childRSSCapKB() int64 {
+	if v, err := strconv.ParseInt(os.Getenv("VERIF_CHILD_RSS_CAP_MB"), 10, 64); err == nil && v > 0 {
+		return v << 10
+	}
+	return 10 << 20 // 10 GiB
+}
+
+// rssKB reads the resident set of a process from /proc (0 if it is gone).
+func rssKB(pid int) int64 {
+	b, err := os.ReadFile("/proc/" + strconv.Itoa(pid) + "/statm")
+	if err != nil {
+		return 0
+	}
+	f := strings.Fields(string(b))
+	if len(f) < 2 {
+		return 0
+	}
+	pages, _ := strconv.ParseInt(f[1], 10, 64)
+	return pages * int64(os.Getpagesize()) >> 10
 }
 
 // RunShards runs the children with at most par in parallel and merges their logs into the context.
@@ -231,9 +257,25 @@ func (c *Ctx) runOne(bin string, s Shard, idx int) ShardResult {
 	done := make(chan error, 1)
 	go func() { done <- cmd.Wait() }()
 	var err error
-	select {
-	case err = <-done:
-	case <-time.After(to):
+	capKB := childRSSCapKB()
+	deadline := time.After(to)
+	tick := time.NewTicker(200 * time.Millisecond)
+	defer tick.Stop()
+wait:
+	for {
+		select {
+		case err = <-done:
+			break wait
+		case <-tick.C:
+			if rssKB(cmd.Process.Pid) > capKB {
+				r.MemCapped = true
+				syscall.Kill(-cmd.Process.Pid, syscall.SIGKILL)
+				err = <-done
+				break wait
+			}
+			continue
+		case <-deadline:
+		}
 		r.TimedOut = true
 		syscall.Kill(-cmd.Process.Pid, syscall.SIGQUIT)
 		select {
@@ -242,6 +284,7 @@ func (c *Ctx) runOne(bin string, s Shard, idx int) ShardResult {
 			syscall.Kill(-cmd.Process.Pid, syscall.SIGKILL)
 			err = <-done
 		}
+		break
 	}
 	ef.Close()
 	r.Wall = time.Since(t0)
@@ -250,6 +293,9 @@ func (c *Ctx) runOne(bin string, s Shard, idx int) ShardResult {
 		r.ExitCode = cmd.ProcessState.ExitCode()
 		if ws, ok := cmd.ProcessState.Sys().(syscall.WaitStatus); ok && ws.Signaled() {
 			r.Signal = ws.Signal().String()
+		}
+		if ru, ok := cmd.ProcessState.SysUsage().(*syscall.Rusage); ok && ru != nil {
+			r.MaxRSSKB = int64(ru.Maxrss)
 		}
 	}
 	_ = err
@@ -260,6 +306,11 @@ func (c *Ctx) runOne(bin string, s Shard, idx int) ShardResult {
 		r.Stderr = string(b)
 	}
 	c.mergeLog(&r, s.Phase)
+	c.mu.Lock()
+	if mb := r.MaxRSSKB >> 10; mb > c.Stats["max:child_peak_rss_mb"] {
+		c.Stats["max:child_peak_rss_mb"] = mb
+	}
+	c.mu.Unlock()
 	return r
 }
 
@@ -508,6 +559,11 @@ func (c *Ctx) ClassifyDeaths(results []ShardResult, clause string) {
 		if r.LastBegin != nil {
 			last = r.LastBegin.EP
 			wit, _ = json.Marshal(map[string]interface{}{"ep": r.LastBegin.EP, "input": string(r.LastBegin.In), "input_b64": r.LastBegin.In, "phase": r.Shard.Phase, "args": r.Shard.Args})
+		}
+		if r.MemCapped {
+			// decided on bytes, not on time: the resident set passed the cap (childRSSCapKB)
+			c.AddViol(Viol{ID: fmt.Sprintf("%s/death/memory-cap@%s", c.Prop, r.Shard.Phase), Clause: clause, Detail: fmt.Sprintf("child %s was stopped because its resident set passed %d MiB (an input of at most 10 MiB never needs that); last input=%s", r.Shard.Phase, childRSSCapKB()>>10, oneLine(last, 200)), Witness: wit, Phase: r.Shard.Phase})
+			continue
 		}
 		if r.TimedOut {
 			c.AddInc(fmt.Sprintf("watchdog fired on child %s after %s (last input: %s)", r.Shard.Phase, r.Wall.Round(time.Second), oneLine(last, 120)))
